@@ -215,6 +215,10 @@ func (f *Frame) callBuiltin(st *State, in ssa.Instruction, b *ssa.Builtin, c *ss
 		vc.checkFrame(st, dn, ds, m, in)
 		dh := st.Heap(vc, dn, ds)
 		st.SetHeap(dn, Ite(Eq(m, IntLit(0)), dh, Store(dh, m, Store(Select(dh, m), k, False))))
+		_, vn, _, vs := env.mapHeaps(c.Args[0].Type())
+		vh := st.Heap(vc, vn, vs)
+		zero := env.Zero(c.Args[0].Type().Underlying().(*types.Map).Elem())
+		st.SetHeap(vn, Ite(Eq(m, IntLit(0)), vh, Store(vh, m, Store(Select(vh, m), k, zero))))
 		return st, nil
 	case "print", "println":
 		return st, nil
@@ -589,15 +593,34 @@ func (f *Frame) applyContract(st *State, in ssa.Instruction, ct *Contract, sig *
 			vc.assumeIn(st, Term{fmt.Sprintf("(forall ((r %s)) (! (=> %s (= (select %s r) (select %s r))) :pattern ((select %s r))))", ks, guard.S, nw.S, old.S, nw.S), SBool})
 			st.SetHeap(hn, nw)
 		}
+		for _, hn := range sortedKeys(byHeap) {
+			if strings.HasPrefix(hn, "Mv_") {
+				vc.mapWF(st, hn)
+			}
+		}
 	}
 	if !ct.Pure || ct.Allocates {
 		ntop := vc.freshConst("top", SInt)
 		vc.assumeIn(st, Le(st.top, ntop))
-		if ct.Kind == "trusted" || (ct.Kind == "iface" && ct.Trusted) {
-			// library code never allocates objects of this module's (unexported) struct types
-			vc.assumeIn(st, Term{fmt.Sprintf("(forall ((r Int)) (! (=> (and (< %s (base r)) (<= (base r) %s)) (= (rtype r) (- 1))) :pattern ((rtype r))))", st.top.S, ntop.S), SBool})
-		}
 		st.top = ntop
+		// objects the callee may have allocated: their liveness is unknown to the caller unless ensured
+		at := map[string]types.Type{}
+		if fn != nil && vc.p.inModule(fn) {
+			for k, v := range vc.p.allocTypes(fn) {
+				at[k] = v
+			}
+		}
+		for i := 0; i < sig.Results().Len(); i++ {
+			vc.p.reachableStructs(sig.Results().At(i).Type(), at, 0)
+		}
+		for _, k := range sortedKeys(at) {
+			hn, hs := vc.env.aliveHeap(at[k])
+			old := st.Heap(vc, hn, hs)
+			nw := vc.freshConst(hn, hs)
+			vc.assumeIn(st, Term{fmt.Sprintf("(forall ((r Int)) (! (=> (<= (base r) %s) (= (select %s r) (select %s r))) :pattern ((select %s r))))", pre.top.S, nw.S, old.S, nw.S), SBool})
+			vc.aliveBound(nw, ntop)
+			st.SetHeap(hn, nw)
+		}
 	}
 	// results
 	var vals []Value
